@@ -1154,6 +1154,9 @@ def FIBER(
         P = np.abs(A) ** 2
         return P.sum(axis=0) if P.ndim == 2 else P
 
+    def h_eff(h):  # effective (nonlinear) length of a step of length h, accounting for the attenuation along it
+        return h if alpha == 0 else -np.expm1(-alpha * h) / alpha
+
     h = (
         length
         if (beta_2 == 0 and beta_3 == 0) or gamma == 0
@@ -1166,7 +1169,7 @@ def FIBER(
         barra_progreso = tqdm(total=100)
 
     while True:
-        exp_NL = np.exp(1j * gamma * (h / 2) * np.abs(A) ** 2)
+        exp_NL = np.exp(1j * gamma * (h_eff(h) / 2) * np.abs(A) ** 2)
         exp_L = np.exp(D_op * h)
         A = exp_NL * ifft(
             exp_L * fft(exp_NL * A)
@@ -1189,7 +1192,7 @@ def FIBER(
     h = length - x_length
 
     if h != 0:
-        exp_NL = np.exp(1j * gamma * (h / 2) * np.abs(A) ** 2)
+        exp_NL = np.exp(1j * gamma * (h_eff(h) / 2) * np.abs(A) ** 2)
         exp_L = np.exp(D_op * h)
         A = exp_NL * ifft(exp_L * fft(exp_NL * A))
 
